@@ -96,7 +96,10 @@ def one_message(ctx, enc, holder, dec, fmt, pgn, payload, prev_seq, src=7, dest=
     msg = fp.prop_message(pgn, src, dest, prio)
     case = {"pgn": pgn, "payload_hex": payload.hex(), "format": fmt, "prev_seq": prev_seq}
     tag = f"C03|{fmt}"
-    pk, frames = frames_of(enc, fmt, msg)
+    try:
+        pk, frames = frames_of(enc, fmt, msg)
+    except Exception as e:
+        return [(f"{tag}|encode-error|{type(e).__name__}", f"encoder failed for a {len(payload)}-byte payload: {type(e).__name__}: {e}", case)], prev_seq
     res, seq = check_frames(frames, payload, prev_seq, pgn, src, dest, prio, tag)
     out = [(b, w, case) for b, w in res]
     got = []
